@@ -209,6 +209,32 @@ def _positive(fn, o, depth=0):
     return True
 
 
+def r16_7(ctx, fx):
+    """disconnect_peer(peer, Some(query)) settles that query unconditionally: from the Some edge of the `query` argument every exit
+    passes `engine.register_peer_failure(query, peer)` - it must not depend on the peer still being tracked in `self.peers` (a second
+    failing request to the same peer, or a ConnectionClosed handled first, finds the context already removed)."""
+    fn = ctx.fn(fx, K + "disconnect_peer::{closure#0}", "R16.7")
+    if fn is None:
+        return
+    qsw = [sw for sw in fn.discr_switches() if sw[2].endswith("option::Option") and re.search(r"\{query\}$", fn.origin({"c": list(sw[1])}))]
+    ctx.anchor("R16.7", "disconnect_peer: match on the query argument", len(qsw), 1, cfg=fx.cfg)
+    hits = [c.node for c in fn.calls(r"QueryEngine::register_peer_failure$") if len(c.args) > 1 and re.search(r"\{query\}@Some\.0$", fn.origin(c.args[1]))]
+    for sw in qsw:
+        starts = [n for n, l in fn.succs(sw[0]) if l in fn.variant_edges(sw, "Some")]
+        p = fn.witness_path(starts, [n for n, _ in fn.exits()] + fn.return_nodes(), avoid=hits)
+        ctx.ob("R16.7", "disconnect_peer/Some(query)=>register_peer_failure(query)-on-every-path", bool(hits) and p is None, site=fn.site(sw[0]), cfg=fx.cfg,
+               detail="path from the Some edge to an exit without settling the failing query: %s" % (fn.path_sites(p) if p else None))
+        # and not behind the removal of the peer context
+        rm = [c for c in fn.calls(r"HashMap(<.*>)?::remove$") if ".peers" in fn.recv(c)]
+        gated = False
+        for c in rm:
+            for sw2 in fn.discr_switches():
+                if sw2[1] and sw2[1][0] in fn.copies_of(c.dest[0]) | {c.dest[0]}:
+                    if hits and all(fn.only_via(h, sw2[0], fn.variant_edges(sw2, "Some")) for h in hits):
+                        gated = True
+        ctx.ob("R16.7", "disconnect_peer/settling-the-failing-query-does-not-depend-on-peers.remove", bool(hits) and not gated, site=fn.site(sw[0]), cfg=fx.cfg)
+
+
 def r16_4(ctx, fx):
     T = "protocol::libp2p::kademlia::query::target_peers::PutToTargetPeersContext::"
     fn = ctx.fn(fx, T + "next_action", "R16.4")
@@ -348,3 +374,4 @@ def run(ctx):
     r16_6(ctx, fx)
     r16_3(ctx, fx)
     r16_4(ctx, fx)
+    r16_7(ctx, fx)
